@@ -681,6 +681,18 @@ func realMain() {
 		{[]string{"exec hlinger 400", "exists nofile"}, expectation{Verdict: "fail", FailLine: 2, Why: "hlinger exits 0; the next line fails"}},
 		{[]string{"exec hecho xyz uvw", "exec hlinger 250", "! stdout xyz", "! stderr uvw", "stdout started"}, expectation{Verdict: "pass", Why: "hlinger exits 0 and its output replaces the earlier one"}},
 	}...)
+	// a background program that ended (and was collected by the interpreter's
+	// own waiting goroutine) long before the script reaches skip: skip still
+	// only has to find its status as demanded
+	pathCases = append(pathCases, []struct {
+		lines []string
+		exp   expectation
+	}{
+		{[]string{"exec hexit 0 &", "exec hsleep 300ms", "skip"}, expectation{Verdict: "skip", Why: "the background program exited 0 as demanded; nothing failed"}},
+		{[]string{"! exec hexit 3 &", "exec hsleep 300ms", "skip why"}, expectation{Verdict: "skip", Why: "the background program failed as demanded; nothing failed"}},
+		{[]string{"exec hexit 3 &", "exec hsleep 300ms", "skip"}, expectation{Verdict: "fail", FailLine: 3, Why: "the background program exited 3 although success was demanded: found out when skip collects it"}},
+		{[]string{"exec hexit 0 &n&", "exec hexit 0 &", "exec hsleep 300ms", "wait n", "skip"}, expectation{Verdict: "skip", Why: "both background programs exited 0"}},
+	}...)
 	for _, pc := range pathCases {
 		for _, cfg := range []config{def, coe} {
 			e := pc.exp
